@@ -741,6 +741,7 @@ Lemma legal_start_stage s id i k :
 Proof.
   unfold handle_start_stage.
   destruct (get_stage s i) as [st|] eqn:Hs; [|exact I].
+  destruct (parent_not_started s st). { expose. split; [apply legal_quiet; solve_quiet|exact I]. }
   set (r := evaluate_readiness _ _ _).
   assert (chain_legal (w_stages s) (w_status s)
             (h_commits (if start_stage_late (s_status st) then ok []
